@@ -428,3 +428,16 @@ LM('tl_allpat_eq', [tl__, tl2__], z3.Implies(z3.And(tl_allpat(tl__), tl_allpat(t
 for _n in ('tl_taken_step', 'tl_taken_zero', 'tl_taken_all', 'tl_pats_snoc', 'tl_allpat_snoc', 'mlen_nonneg', 'tl_len_nonneg', 'pm_values_pats', 'pm_values_allpat', 'pm_len_m',
            'ex_stack_lastn', 'ex_stack_dropn', 'ex_stack_len', 'mlen_zero', 'pm_len_zero'):
     MAPL[_n] = LIB.get(_n) or PUBL.get(_n) or STREAM.get(_n)
+
+# --- suffixes of an instantiation map (C08: the loop of dynamic_inst rewrites delta[idn] while iterating delta.items()) ---------------------
+msuffix = _rec_('msuffix', MMap, MMap, B)            # msuffix(s, M): s is a suffix of M
+_ms = z3.Const('_ms', MMap)
+_def_(msuffix, [_ms, _pm], z3.Or(_ms == _pm, z3.And(MMp.is_('mcons', _pm), msuffix(_ms, MMp.get('mcons', 'mtl', _pm)))), dec=1)
+m2_ = z3.Const('m2_', MMap)
+LM('msuffix_tail', [m2_, m_], z3.Implies(z3.And(msuffix(m2_, m_), MMp.is_('mcons', m2_)), msuffix(MMp.get('mcons', 'mtl', m2_), m_)), ind=m_, triggers=[msuffix(m2_, m_)], split_depth=1)
+LM('msuffix_head', [m2_, m_], z3.Implies(z3.And(msuffix(m2_, m_), MMp.is_('mcons', m2_), mdistinct(m_)),
+                                         z3.And(mhas(m_, MMp.get('mcons', 'mkey', m2_)), mget(m_, MMp.get('mcons', 'mkey', m2_)) == MMp.get('mcons', 'mval', m2_))),
+   ind=m_, triggers=[msuffix(m2_, m_)], split_depth=1)
+LM('mset_same', [m_, kk, psi], z3.Implies(z3.And(mhas(m_, kk), mget(m_, kk) == psi), mset(m_, kk, psi) == m_), ind=m_, triggers=[mset(m_, kk, psi)], split_depth=1)
+for _n in ('expandmap_pset', 'pmwf_pset', 'expandmap_has', 'expandmap_get'):
+    MAPL[_n] = LIB.get(_n)
